@@ -115,6 +115,48 @@ fn gen_ptr_boundary(r: &mut Rng) -> (Vec<u8>, usize) {
     (buf, start)
 }
 
+/// large messages: a pointer whose target lies at an offset that needs bit 12 / bit 13 of the 14-bit
+/// offset field (4096.., 8192.., up to 16383). The filler in front is itself a valid name at every
+/// 4-byte step, so that a pointer resolved to a truncated offset still finds a (different) name.
+fn gen_far(r: &mut Rng) -> (Vec<u8>, usize) {
+    let mut buf = Vec::new();
+    let base = *r.pick(&[4090usize, 4096, 8186, 8192, 8200, 12288, 16370]);
+    let pad = base + r.below(8) as usize;
+    while buf.len() + 5 <= pad {
+        buf.extend_from_slice(&[3, b'p', b'a', b'd']);
+    }
+    buf.push(0);
+    while buf.len() < pad {
+        buf.push(0);
+    }
+    // the target name, in place
+    let target = buf.len();
+    let n_labels = r.range(1, 3);
+    for _ in 0..n_labels {
+        let l = valid_label_rng(r, 1, 6);
+        push_label(&mut buf, &l);
+    }
+    buf.push(0);
+    // filler, then the name under test: 0..2 labels + a pointer to the target (or into its middle)
+    for _ in 0..r.below(4) {
+        buf.push(0);
+    }
+    let start = buf.len();
+    for _ in 0..r.below(3) {
+        let l = valid_label_rng(r, 1, 4);
+        push_label(&mut buf, &l);
+    }
+    if target <= 0x3FFF {
+        push_ptr(&mut buf, target);
+    } else {
+        buf.push(0);
+    }
+    let l = valid_label(r, 2);
+    push_label(&mut buf, &l);
+    buf.push(0);
+    (buf, start)
+}
+
 /// boundary: pointer chains of 30..34 hops, optionally with labels in between
 fn gen_chain(r: &mut Rng) -> (Vec<u8>, usize) {
     let mut buf = Vec::new();
@@ -240,7 +282,9 @@ fn gen_random(r: &mut Rng) -> (Vec<u8>, usize) {
 }
 
 pub fn gen(r: &mut Rng, _index: u64) -> String {
-    let (mut buf, mut pos) = match r.below(20) {
+    let far = r.chance(1, 25);
+    let (mut buf, mut pos) = match r.below(if far { 21 } else { 20 }) {
+        20 => gen_far(r),
         0..=6 => gen_structured(r),
         7..=9 => gen_ptr_boundary(r),
         10..=11 => gen_chain(r),
